@@ -154,7 +154,7 @@ NEEDS8 = {
  "C12": "a parsed or built board in check from a knight and a pawn at once (not reachable by play); status / generation",
  "C14": "null_move by a side that has a pinned piece while no enemy slider is lined up with the other king (stale pins kept)",
  "C15": "try_play / play of a pawn move to the last rank with promotion to King",
- "C16": "@C16@",
+ "C16": "a position where two pawns can capture en passant and the listener aborts on the first of the two batches",
  "C17": "count() on a partially consumed iterator of a pawn batch with promotion destinations",
  "C18": "iter_subsets of the full bitboard (64 squares: the shift overflows)",
 }
